@@ -87,6 +87,10 @@ def cases(tier, seed):
                                     # the tomogram read lazily from an MRC file through SubtomogramLoader.imread (pixel size taken from the header)
                                     out.append({"tomo": list(tomo), "rot": rot, "shape": list(shape), "order": order, "scale": scale,
                                                 "corner_safe": cs, "array": "file:mrc", "seed": seed, "family": "interior"})
+                                if kind == "numpy" and rot in ("cube0", "gen0", "gen1", "degen6") and (tier == "thorough" or tuple(shape) in ((3, 3, 3), (4, 4, 4), (3, 5, 4))):
+                                    # the same molecules held by a BatchLoader (one tomogram): it builds per-tomogram loaders with its own settings
+                                    out.append({"tomo": list(tomo), "rot": rot, "shape": list(shape), "order": order, "scale": scale,
+                                                "corner_safe": cs, "array": "batch", "seed": seed, "family": "interior"})
                                 if rot in SWEEP_ROTS and kind == "numpy":
                                     if tier == "quick" and (scale != 1.0 or shape in ((3, 5, 4), (1, 1, 1))):
                                         continue
@@ -190,6 +194,12 @@ def run_case(case):
 
     def loader_for(img, positions):
         mole = Molecules(np.array(positions) * scale, Rotation.from_matrix(np.array([R] * len(positions))))
+        if case["array"] == "batch":
+            from acryo import BatchLoader
+
+            b = BatchLoader(order=order, scale=scale, output_shape=shape, corner_safe=cs)
+            b.add_tomogram(img, mole, image_id=3)
+            return b
         if case["array"] == "file:mrc":
             import tempfile
 
